@@ -53,11 +53,15 @@ func (s *SignedLatency) OnPing(pingReqID uint32) error {
 		return errors.New("ping request not found")
 	}
 
-	s.Iteration--
-	s.PingRequests[pingReqID] = LatencyMetricsData{
-		Start: pingRequest.Start,
-		End:   time.Now(),
+	if !pingRequest.End.IsZero() {
+		// Every ping is answered once: a repeated (or, once the measurement
+		// is complete, replayed) response must not count as a new round.
+		return errors.New("ping request already answered")
 	}
+
+	pingRequest.End = time.Now()
+	s.Iteration--
+	s.PingRequests[pingReqID] = pingRequest
 
 	if s.Iteration > 0 {
 		// Send new ping request
@@ -81,7 +85,8 @@ func (s *SignedLatency) OnPing(pingReqID uint32) error {
 		mean += latency
 	}
 	mean = float32(math.Round(float64(mean) / float64(len(s.PingRequests))))
-	last = latencies[len(latencies)-1]
+	// the latency of the final round, i.e. of the ping answered just now
+	last = float32(pingRequest.End.Sub(pingRequest.Start).Microseconds())
 
 	sort.Slice(latencies, func(i, j int) bool {
 		return latencies[i] < latencies[j]
